@@ -1,2 +1,4 @@
-# C17/C18: the driver needs protocol/Manifest.o only (keeps the asan flavour quick to build)
-EXCL_manifest := $(patsubst %.cpp,%.o,$(filter-out protocol/Manifest.cpp,$(CORE_SRC)))
+# C17/C18: harness/manifest.cpp #includes $(REPO)/src/protocol/Manifest.cpp (nothing else of the repo is needed);
+# UBSan in recover mode for this TU so that an input reaching undefined behaviour does not cost a worker process
+EXCL_manifest := $(patsubst %.cpp,%.o,$(CORE_SRC))
+CXXFLAGS_manifest := -I$(REPO)/src -fsanitize-recover=undefined
